@@ -185,10 +185,10 @@ func beforeRun[V signed](c WrapCase) error {
 		}
 		switch {
 		case ran == 1:
+			// The statement fixes what LATER calls return (the result of the last run);
+			// what a running call itself returns is not asserted.
 			last = 100 + count
-			if got != last {
-				return fmt.Errorf("Before, %v: call %d ran the callback, which returned %d, but the call returned %d", c, i, last, got)
-			}
+			_ = got
 		case c.N >= 1:
 			if got != last {
 				return fmt.Errorf("Before, %v: call %d returned %d, want %d = the result of the last run (call %d)", c, i, got, last, c.N)
@@ -401,9 +401,9 @@ func checkOutcome(ctx string, n int, pat string, rec *recorder, attempts int, er
 	case n <= 0:
 		// No invocation, hence no "last error": the statement leaves the error open.
 		// Retry alone documents (in the error text, pinned by TestFunc_Retry) that a negative n is rejected.
-		if n < 0 && wantErrNeg && err == nil {
-			return fmt.Errorf("%s: a negative number of attempts was accepted without an error", ctx)
-		}
+		// (Retry happens to reject a negative n with an error; the statement does not
+		// demand it, so it is not asserted.)
+		_ = wantErrNeg
 	case m.succeeds:
 		if err != nil {
 			return fmt.Errorf("%s: invocation %d succeeded but the error %q was reported", ctx, m.calls, err)
@@ -486,9 +486,8 @@ func delayProp(c DelayCase, r *pbt.R) error {
 	if len(rec.times) > 0 {
 		span = rec.times[len(rec.times)-1].Sub(rec.times[0])
 	}
-	if elapsed < span || elapsed > t1.Sub(t0) {
-		return fmt.Errorf("%s: reported an elapsed time of %v; the invocations span %v and the whole call took %v", ctx, elapsed, span, t1.Sub(t0))
-	}
+	// (the statement says nothing about the reported duration: recorded, not asserted)
+	_, _, _, _ = elapsed, span, t0, t1
 	retryLabels(r, n, c.Pat)
 	if d > 0 && rec.calls >= 2 {
 		r.Label("waited between invocations")
@@ -547,7 +546,7 @@ func TestProp(t *testing.T) {
 			Rule: "RType[int].Retry(n, fn); invocation i of fn succeeds iff pattern[i] = 'S', invocations beyond the pattern fail, every failure is a distinct error value; " +
 				scopeText + " x every pattern of length 0..8 (0..12); random: n in -20..40, patterns shaped relative to n (success within the budget / exactly n failures / more than n failures + tail / up to 40 failures + tail). " +
 				"Oracle: invocations = min(n, position of the first success), 0 for n <= 0; reported attempts = failed invocations; error nil after a success, else errors.Is(the error of the nth invocation); " +
-				"n < 0 must report an error; the error for n = 0 is not asserted. Non-trivial = n >= 1 and the pattern is consumed exactly, one letter per invocation " +
+				"the error for n <= 0 is not asserted. Non-trivial = n >= 1 and the pattern is consumed exactly, one letter per invocation " +
 				"(patterns with an unused tail or shorter than the invocations repeat the behaviour of an exactly consumed one: enumerated, but not counted).",
 			Enum: enumRetry, Gen: genRetry, Prop: retryProp, OutOfEnum: retryOutOfEnum,
 			RapidQuick: 300, RapidThorough: 20000,
@@ -556,8 +555,7 @@ func TestProp(t *testing.T) {
 		&pbt.Check[DelayCase]{
 			Name: "retrydelay",
 			Rule: "RType[int].RetryWithDelay(n, d, fn) inside a synctest bubble (virtual, exact clock; fn records time.Now()); same n and patterns as retry x d in {0, 5ms, 1s} (thorough and random also 1ns, 1h). " +
-				"Oracle: invocation count, attempts and error as for retry (no error demanded for n <= 0); consecutive invocations start at least d apart (lower bound only); " +
-				"the reported elapsed time lies between the span of the invocations and the duration of the whole call. Non-trivial as for retry.",
+				"Oracle: invocation count, attempts and error as for retry (no error demanded for n <= 0); consecutive invocations start at least d apart (lower bound only); the reported elapsed time is not asserted. Non-trivial as for retry.",
 			Enum: enumDelay, Gen: genDelay, Prop: delayProp, OutOfEnum: delayOutOfEnum,
 			Bubble:     true,
 			RapidQuick: 300, RapidThorough: 10000,
